@@ -571,6 +571,8 @@ def r11e(model: Model, rr: RuleResult):
             un_at = cfg.node_for(unz[0])
             sa = [st for st in walk_body(fi) if isinstance(st, ast.Assign) and norm(st.targets[0]) == f"{g}[:]" and cfg.path_exists(un_at, cfg.node_for(st))]
             sb = [st for st in ast.walk(fi.node) if isinstance(st, ast.Assign) and norm(st.targets[0]) == f"{pl}[:]"]
+            if b == f"{pl}[:]":
+                sb, b = [unz[0]], norm(unz[0].value)  # unpacked straight into the slice: written in place by the unzip itself
             ok = sb and norm(sb[0].value) == b and sa and a in {norm(d.value) if d.value is not None else a for d in cfg.reaching(cfg.node_for(sa[0]), norm(sa[0].value))} | {norm(sa[0].value)}
             if ok:
                 rr.ok(f"both lists are updated in place ({g}[:] = ..., {pl}[:] = ...) from the same unzipped pairing")
@@ -731,7 +733,10 @@ def r11g(model: Model, rr: RuleResult):
                     continue
                 seen += 1
                 why = SET_GLYPH_ORDER_OK.get((mname, fi.qualname))
-                if why is None:
+                a_ = norm(c.args[0]) if c.args else ""
+                if why is None and a_.startswith(f"{norm(c.func.value)}.getGlyphOrder() + "):
+                    rr.ok(f"{mname}.{fi.qualname}: {short(c, 70)} appends to the existing order (no existing glyph id moves)")
+                elif why is None:
                     rr.bad(fi, c, f"{short(c, 60)} in {mname}.{fi.qualname}: the glyph order of a compiled font is changed outside reorder_glyphs; GSUB/GPOS/GDEF/MATH coverages and "
                            f"their parallel arrays keep the old order (or reorder_glyphs, called afterwards, finds nothing left to move)", construct=f"{mname}.{fi.qualname}: setGlyphOrder")
                 elif (mname, fi.qualname) == ("glue_together", "_copy_colr"):
